@@ -58,6 +58,11 @@ def alphabet():
         # an undeclared name (g1 unless declared) referenced in roles of different inferred kinds
         ("rel", "D", "usage", None, (a1, g1, None)),
         ("rel", "D", "communication", None, (a1, e3)),
+        # a relation lacking its second argument while a later formal argument names an element
+        ("rel", "D", "association", None, (a1, None, e2)),
+        ("rel", "D", "start", None, (a1, None, a9, None)),
+        # a relation whose identifier is also the name of an undeclared endpoint (e3)
+        ("rel", "D", "usage", e3, (a1, e1, None)),
     ]
 
 
@@ -191,7 +196,7 @@ def make_spec(tier, params):
 def main(tier, seed):
     from .. import runner
     return runner.run_history(
-        __name__, "C14", tier, seed, {"quick": 4, "thorough": 5}[tier],
+        __name__, "C14", tier, seed, {"quick": 3, "thorough": 4}[tier],
         rule="BFS over bundle-free histories of <= depth records/attributes (21-letter alphabet: declared and "
              "undeclared endpoints, entity+agent with one identifier, self-loops, parallel duplicates, identified and "
              "anonymous relations, missing endpoints); non-trivial = the reference graph has at least one edge")
